@@ -80,8 +80,20 @@ type aDB struct {
 	lastKind      string
 	stmts         int
 	failAt        int
-	execs         int // business statements (Exec calls that are not savepoints) so far
-	failExec      int // the k-th of them (1-based) is rejected by the database; 0: none
+	// transactions (one connection): BEGIN takes a snapshot, ROLLBACK restores it; with
+	// txSteps the transaction commands and the undo-log insert are statements of their
+	// own for failAt and appear in the journal
+	txSteps  bool
+	txOpen   bool
+	txSnap   []aRow
+	undoRows []aUndoRow
+	undoSnap int
+	commitsOK int
+	// which step the injected failure hit ("statement" for a query or DML statement)
+	journalFailed string
+
+	execs    int // business statements (Exec calls that are not savepoints) so far
+	failExec int // the k-th of them (1-based) is rejected by the database; 0: none
 
 	setCols            map[int]bool // columns assigned by the UPDATE statement(s) of the last Exec
 	savepoint          []aRow
@@ -342,6 +354,59 @@ func (r aResult) RowsAffected() (int64, error) { return r.affected, nil }
 
 type aConn struct{ d *aDB }
 
+type aUndoRow struct {
+	branch int64
+	xid    string
+}
+
+// step: one more statement for the fault index (transaction commands, undo-log insert)
+func (d *aDB) step(what string) error {
+	d.journal = append(d.journal, what)
+	if !d.txSteps {
+		return nil
+	}
+	k := d.stmts
+	d.stmts++
+	if k == d.failAt {
+		d.journalFailed = what
+		return errors.New("injected database failure at " + what)
+	}
+	return nil
+}
+
+// durable: the committed rows and undo-log rows (what survives if the connection dies now)
+func (d *aDB) durable() ([]aRow, []aUndoRow) {
+	if d.txOpen {
+		return d.txSnap, d.undoRows[:d.undoSnap]
+	}
+	return d.rows, d.undoRows
+}
+
+type aUndoStmt struct{ d *aDB }
+
+func (aUndoStmt) Close() error  { return nil }
+func (aUndoStmt) NumInput() int { return -1 }
+func (s aUndoStmt) Exec(args []driver.Value) (driver.Result, error) {
+	if err := s.d.step("INSERT undo_log"); err != nil {
+		return nil, err
+	}
+	r := aUndoRow{}
+	if len(args) >= 2 {
+		switch b := args[0].(type) {
+		case int64:
+			r.branch = b
+		case uint64:
+			r.branch = int64(b)
+		}
+		r.xid, _ = args[1].(string)
+	}
+	s.d.undoRows = append(s.d.undoRows, r)
+	return aResult{affected: 1}, nil
+}
+func (aUndoStmt) Query([]driver.Value) (driver.Rows, error) {
+	return nil, errors.New("adb: query of an undo-log insert")
+}
+
 // Prepare: only the server-variable query the insert executor sends is supported; it is
 // answered the way go-sql-driver's text protocol does (two columns, values as []byte,
 // Next fills as many cells as dest has).
@@ -349,6 +414,9 @@ func (c *aConn) Prepare(q string) (driver.Stmt, error) {
 	c.d.journal = append(c.d.journal, q)
 	if strings.HasPrefix(strings.ToUpper(strings.TrimSpace(q)), "SHOW VARIABLES LIKE 'AUTO_INCREMENT_INCREMENT'") {
 		return aShowStmt{}, nil
+	}
+	if strings.HasPrefix(strings.ToUpper(strings.TrimSpace(q)), "INSERT INTO UNDO_LOG") || strings.HasPrefix(strings.ToUpper(strings.TrimSpace(q)), "INSERT INTO  UNDO_LOG") {
+		return aUndoStmt{c.d}, nil
 	}
 	return nil, errors.New("adb: prepare not supported")
 }
@@ -381,17 +449,52 @@ func (r *aShowRows) Next(dest []driver.Value) error {
 	}
 	return nil
 }
-func (c *aConn) Close() error              { return nil }
-func (c *aConn) Begin() (driver.Tx, error) { c.d.txBegins++; return aTx{c.d}, nil }
+func (c *aConn) Close() error { return nil }
+func (c *aConn) Begin() (driver.Tx, error) {
+	return c.BeginTx(context.Background(), driver.TxOptions{})
+}
 func (c *aConn) BeginTx(ctx context.Context, o driver.TxOptions) (driver.Tx, error) {
-	c.d.txBegins++
-	return aTx{c.d}, nil
+	d := c.d
+	d.txBegins++
+	if d.txSteps {
+		if err := d.step("BEGIN"); err != nil {
+			return nil, err
+		}
+	}
+	d.txOpen, d.undoSnap = true, len(d.undoRows)
+	d.txSnap = make([]aRow, len(d.rows))
+	for i, r := range d.rows {
+		d.txSnap[i] = r.clone()
+	}
+	return aTx{d}, nil
 }
 
 type aTx struct{ d *aDB }
 
-func (t aTx) Commit() error   { t.d.txCommits++; return nil }
-func (t aTx) Rollback() error { t.d.txRollbacks++; return nil }
+func (t aTx) Commit() error {
+	t.d.txCommits++
+	if t.d.txSteps {
+		if err := t.d.step("COMMIT"); err != nil {
+			return err
+		}
+	}
+	t.d.txOpen, t.d.txSnap = false, nil
+	t.d.commitsOK++
+	return nil
+}
+func (t aTx) Rollback() error {
+	t.d.txRollbacks++
+	if t.d.txSteps {
+		if err := t.d.step("ROLLBACK"); err != nil {
+			return err
+		}
+	}
+	if t.d.txOpen {
+		t.d.rows, t.d.undoRows = t.d.txSnap, t.d.undoRows[:t.d.undoSnap]
+	}
+	t.d.txOpen, t.d.txSnap = false, nil
+	return nil
+}
 
 func (c *aConn) ExecContext(ctx context.Context, q string, args []driver.NamedValue) (driver.Result, error) {
 	d := c.d
@@ -400,6 +503,7 @@ func (c *aConn) ExecContext(ctx context.Context, q string, args []driver.NamedVa
 	k := d.stmts
 	d.stmts++
 	if k == d.failAt {
+		d.journalFailed = "statement"
 		return nil, errors.New("injected database failure")
 	}
 	if d.savepointStmt(q) {
@@ -639,6 +743,7 @@ func (c *aConn) QueryContext(ctx context.Context, q string, args []driver.NamedV
 	k := d.stmts
 	d.stmts++
 	if k == d.failAt {
+		d.journalFailed = "statement"
 		return nil, errors.New("injected database failure")
 	}
 	if d.savepointStmt(q) {
